@@ -16,7 +16,7 @@ int vprop_fork = 1;
 int vprop_cpu_limit_s = 60;
 const char *vprop_class_names[V_NCLASS] = {
   "single_opcode", "random_program", "x2x4", "two_d", "accumulator", "special_load", "const_operand", "param_operand",
-  "exhaustive_pairs", "n_lt_16", "n_ge_16", "in_place", "var64", "table_check", NULL
+  "exhaustive_pairs", "n_lt_16", "n_ge_16", "in_place", "var64", "table_check", "library_has_opcodes_beyond_reference", NULL
 };
 
 static int int_ops[256], n_int_ops;
@@ -70,7 +70,12 @@ static void table_check (VResult *r)
   v_desc (r, "# C02 table check: library opcode table vs /verif table vs doc/opcode_table.xml\n");
   r->nontrivial = 1; r->classes |= 1u << 13; r->hash = 0x7ab1e;
   if (!set) { v_fail (r, "table:no-sys-set", "opcode set sys not registered"); return; }
-  if (set->n_opcodes != v_noptab) { v_fail (r, "table:count", "library has %d sys opcodes, /verif table %d", set->n_opcodes, v_noptab); return; }
+  if (set->n_opcodes < v_noptab) { v_fail (r, "table:count", "library has %d sys opcodes, the reference knows %d: an opcode disappeared", set->n_opcodes, v_noptab); return; }
+  if (set->n_opcodes > v_noptab) {
+    /* opcodes appended after the ones the reference knows are not judged (no reference semantics): reported, not a violation */
+    v_desc (r, "# %d opcode(s) beyond the reference table are NOT covered by this check, first: %s\n", set->n_opcodes - v_noptab, set->opcodes[v_noptab].name);
+    r->classes |= 1u << 14;
+  }
   for (i = 0; i < v_noptab; i++) {
     const VOp *v = &v_optab[i];
     OrcStaticOpcode *o = &set->opcodes[i];
@@ -98,7 +103,7 @@ static void table_check (VResult *r)
       }
     }
   }
-  if (ref_doc_count () != v_noptab) v_fail (r, "table:doc", "documentation lists %d opcodes, library %d", ref_doc_count (), v_noptab);
+  if (ref_doc_count () != v_noptab) v_fail (r, "table:doc", "the transcribed documentation table lists %d opcodes, the reference table %d", ref_doc_count (), v_noptab);
 }
 
 /* ---- reference interpreter over a ProgSpec ---- */
